@@ -7,8 +7,8 @@ PROP = "C03"
 BACKEND = "jit"
 DUMP = ("bc", 11, False)
 PROPS_FILE = "C03.v"
-COUNTS_QUICK = {"scancond": 30, "subconst": 30, "ifclear": 40, "gvnif": 30, "framealias": 70, "shiftif": 40, "mulcounter": 30, "loopio": 100, "nestuse": 100, "squares": 120, "iopressure": 120, "uniform": 120, "macro": 250, "pressure": 300, "affine": 120, "bigconst": 80, "roam": 40, "diverge": 10}
-COUNTS_THOROUGH = {"scancond": 600, "subconst": 400, "ifclear": 800, "gvnif": 600, "framealias": 1500, "shiftif": 800, "mulcounter": 800, "loopio": 3000, "nestuse": 3000, "squares": 3000, "iopressure": 3000, "uniform": 2000, "macro": 8000, "pressure": 8000, "affine": 3000, "bigconst": 1500, "roam": 600, "diverge": 100}
+COUNTS_QUICK = {"jmpsweep": 120, "scancond": 30, "subconst": 30, "ifclear": 40, "gvnif": 30, "framealias": 70, "shiftif": 40, "mulcounter": 30, "loopio": 100, "nestuse": 100, "squares": 120, "iopressure": 120, "uniform": 120, "macro": 250, "pressure": 300, "affine": 120, "bigconst": 80, "roam": 40, "diverge": 10}
+COUNTS_THOROUGH = {"jmpsweep": 1500, "scancond": 600, "subconst": 400, "ifclear": 800, "gvnif": 600, "framealias": 1500, "shiftif": 800, "mulcounter": 800, "loopio": 3000, "nestuse": 3000, "squares": 3000, "iopressure": 3000, "uniform": 2000, "macro": 8000, "pressure": 8000, "affine": 3000, "bigconst": 1500, "roam": 600, "diverge": 100}
 LEVELS_QUICK = [0, 1, 2, 3]
 LEVELS_THOROUGH = [0, 1, 2, 3]
 PROFILES = ("debug",)
